@@ -22,7 +22,7 @@ sys.path.insert(0, HERE)
 from sa import mutants as M          # noqa: E402
 from sa import extract as X          # noqa: E402
 
-ALL = ["C01", "C02", "C03", "C04", "C05", "C06", "C07", "C09", "C10", "C11", "C12", "C13", "C14", "C15", "C16", "C17", "C18", "C19", "C20"]
+ALL = ["C01", "C02", "C03", "C04", "C05", "C06", "C07", "C08", "C09", "C10", "C11", "C12", "C13", "C14", "C15", "C16", "C17", "C18", "C19", "C20"]
 
 
 def main():
